@@ -371,14 +371,33 @@ class PageTemplate(BaseTemplate):
         digest = sha256(hex_b)
         digest.update(';'.join(names).encode('utf-8'))
 
+        # every option that influences parsing or code generation
         for attr in (
             'trim_attribute_space',
             'implicit_i18n_translate',
-            'strict'
+            'strict',
+            'mode',
+            'boolean_attributes',
+            'implicit_i18n_attributes',
+            'enable_data_attributes',
+            'enable_comment_interpolation',
+            'restricted_namespace',
+            'default_expression',
+            'default_marker',
+            'tokenizer',
         ):
             v = getattr(self, attr)
+            if isinstance(v, (set, frozenset)):
+                # process-independent rendering
+                v = sorted(v)
+            elif attr == 'default_marker':
+                v = getattr(v, 'value', v)
+            elif attr == 'tokenizer' and v is not None:
+                v = "{}.{}".format(
+                    getattr(v, '__module__', ''),
+                    getattr(v, '__qualname__', repr(v)))
             digest.update(
-                (";{}={}".format(attr, str(v))).encode('ascii')
+                (";{}={}".format(attr, str(v))).encode('utf-8')
             )
 
         return digest.hexdigest()[:32]
